@@ -924,6 +924,25 @@ pub fn gen_c14(rng: &mut Rng, d: &mut Dist, idx: u64) -> Vec<String> {
     if wire {
         out.push("H clear_faults".into());
     }
+    // the client is handed to a consumer builder: the consumer's own group calls (the offset look-up of its creation, its
+    // commits) are bound by the limit set on that client
+    if idx >= exhaustive && idx % 4 == 3 {
+        bump(d, "consumer-built-from-the-client");
+        let k = 1 + rng.below(5);
+        let codes: Vec<String> = (0..k).map(|_| rng.pick(&[14i64, 16]).to_string()).collect();
+        out.push(format!("SCRIPT 9 {}", codes.join(" ")));
+        out.push(format!("OP consumer_create client topic={} group={} fallback=earliest", h(&t.name), h("grp")));
+        out.push("SCRIPT 9".into());
+        out.push(format!("APPEND {} 0 plain 0 ~ aa 1 ~ bb", h(&t.name)));
+        out.push("OP poll".into());
+        out.push(format!("OP consume {} 0 0", h(&t.name)));
+        let k = 1 + rng.below(5);
+        let codes: Vec<String> = (0..k).map(|_| rng.pick(&[14i64, 16]).to_string()).collect();
+        out.push(format!("SCRIPT 8 {}", codes.join(" ")));
+        out.push("OP commit".into());
+        out.push("SCRIPT 8".into());
+        return out;
+    }
     // a follow-up call: must still work and go to the right coordinator
     out.push(format!("SCRIPT {}", target));
     out.push(format!("OP c fetch_group_offsets {} {} 0", h("grp"), h(&t.name)));
@@ -982,7 +1001,7 @@ pub fn gen_c14(rng: &mut Rng, d: &mut Dist, idx: u64) -> Vec<String> {
 
 /// C20: arguments mixing loaded / unloaded-but-existing / non-existing topics and in-range / out-of-range / negative
 /// partitions, for every public operation, after histories of full loads, subset loads and resets.
-pub fn gen_c20(rng: &mut Rng, d: &mut Dist, _idx: u64) -> Vec<String> {
+pub fn gen_c20(rng: &mut Rng, d: &mut Dist, idx: u64) -> Vec<String> {
     let mut cl = Cluster::random(rng, 3, true);
     // make sure there are several topics so that subsets are meaningful
     let extra = ["e1", "e2"];
@@ -1068,11 +1087,24 @@ pub fn gen_c20(rng: &mut Rng, d: &mut Dist, _idx: u64) -> Vec<String> {
             bump(d, if from_client { "producer-from-client" } else { "producer-from-hosts" });
             out.push(format!("OP producer_create {} acks={}", from, rng.pick(&[0i64, 1])));
             let mut i = 0u32;
-            for _ in 0..(2 + rng.below(4)) {
+            let nsends = 2 + rng.below(4);
+            for sno in 0..nsends {
+                // behind the producer's back its client forgets topics: everything (reset), or a topic that was deleted on
+                // the cluster and is gone after the next full load - records for them fail locally, nothing is asked
+                if idx % 3 == 0 && sno == 1 {
+                    if idx % 2 == 0 {
+                        bump(d, "producer-client-reset");
+                        out.push("OP p reset_metadata".into());
+                    } else {
+                        bump(d, "producer-topic-deleted-and-reloaded");
+                        out.push(format!("DELTOPIC {}", h(&cl.topics[0].name)));
+                        out.push("OP p load_metadata_all".into());
+                    }
+                }
                 let mut line = String::from("OP send_all");
                 for _ in 0..(1 + rng.below(4)) {
                     i += 1;
-                    let (t, p) = pick_tp(rng, d, &cl);
+                    let (t, p) = if idx % 3 == 0 && sno >= 1 && rng.chance(1, 2) { (cl.topics[0].name.clone(), 0) } else { pick_tp(rng, d, &cl) };
                     let p = if rng.chance(1, 3) { -1 } else { p };
                     let k = if rng.chance(1, 2) { "-".to_string() } else { hex(&rng.bytes(2)) };
                     line.push_str(&format!(" {} {} {} {:08x}", h(&t), p, k, i));
@@ -1431,6 +1463,39 @@ pub fn gen_c16(rng: &mut Rng, d: &mut Dist, idx: u64) -> Vec<String> {
 /// C07: boundary lattice per partition committed in {none, e-1, e, e+1, mid, l-1, l, l+1} x (e = l | e < l) x fallback x
 /// group set/unset x storage, over multi-topic / multi-partition / multi-broker assignments.
 pub fn gen_c07(rng: &mut Rng, d: &mut Dist, idx: u64) -> Vec<String> {
+    // one history in eight: a partition of the topic has no leader at creation time and the consumer is assigned the others,
+    // explicitly - each of them starts where its own commit / its own reported range says
+    if idx % 8 == 5 {
+        bump(d, "unassigned-partition-without-a-leader");
+        let np = 3 + rng.below(2) as usize;
+        let dead = rng.below(np as u64 - 1) as usize;
+        let mut out = vec![format!("BROKER 1 {} 9092", h("b1")), format!("BROKER 2 {} 9092", h("b2")), format!("TOPIC {} {}", h("t"), np), "COORD 1".to_string()];
+        let group = rng.chance(3, 4);
+        let storage = *rng.pick(&["zk", "kafka"]);
+        let mut assigned = Vec::new();
+        for p in 0..np {
+            if p == dead {
+                continue;
+            }
+            out.push(format!("LEADER {} {} {}", h("t"), p, 1 + (p % 2)));
+            let e = 5 * (p as i64 + 1);
+            let l = e + 10 * (p as i64 + 1);
+            out.push(format!("EARLIEST {} {} {}", h("t"), p, e));
+            out.push(format!("HW {} {} {}", h("t"), p, l));
+            if group && rng.chance(2, 3) {
+                out.push(format!("COMMITTEDIN {} {} {} {} {}", storage, h("grp"), h("t"), p, e + 1 + rng.below(5) as i64));
+            }
+            assigned.push(p.to_string());
+        }
+        let fb = *rng.pick(&["earliest", "latest"]);
+        let mut line = format!("OP consumer_create hosts={} tp={}:{} fallback={}", h("b1:9092"), h("t"), assigned.join(","), fb);
+        if group {
+            line.push_str(&format!(" group={} storage={}", h("grp"), storage));
+        }
+        out.push(line);
+        out.push("OP poll".into());
+        return out;
+    }
     let cl = Cluster::random(rng, 3, false);
     let mut out = cl.setup_lines();
     let group = rng.chance(4, 5);
@@ -1918,7 +1983,15 @@ pub fn gen_c06(rng: &mut Rng, d: &mut Dist, _idx: u64) -> Vec<String> {
             2 => {
                 bump(d, "mut-broker-moved");
                 let i = rng.below(cl.brokers.len() as u64) as usize;
-                let newhost = format!("m{}", rng.below(1000));
+                // (a third of the moves are to a name that is a proper prefix of the old one, or that the old one is a prefix of)
+                let r = rng.below(1000);
+                let oldhost = cl.brokers[i].1.clone();
+                let newhost = match r % 3 {
+                    0 if oldhost.len() > 1 => oldhost[..oldhost.len() - 1].to_string(),
+                    1 => format!("{}x", oldhost),
+                    _ => format!("m{}", r),
+                };
+                let newhost = if cl.brokers.iter().any(|b| b.1 == newhost) { format!("m{}", r) } else { newhost };
                 cl.brokers[i].1 = newhost.clone();
                 out.push(format!("BROKER {} {} {}", cl.brokers[i].0, h(&newhost), cl.brokers[i].2));
             }
@@ -2611,7 +2684,7 @@ pub fn gen_c08(rng: &mut Rng, d: &mut Dist, _idx: u64) -> Vec<String> {
             }
             9 => {
                 bump(d, "commit-error-code");
-                out.push(format!("SCRIPT 8 {}", rng.pick(&[29i64, 12, 14, 16, 7])));
+                out.push(format!("SCRIPT 8 {}", rng.pick(&[29i64, 12, 14, 16, 7, -1, -1, 100, -32768, 32767])));
                 out.push("OP commit".into());
                 out.push("SCRIPT 8".into());
             }
@@ -2640,7 +2713,7 @@ pub fn gen_c08(rng: &mut Rng, d: &mut Dist, _idx: u64) -> Vec<String> {
 
 /// C17: a large entry of size s against fetch size `base` and retry limit `lim`: s below / equal / between / above;
 /// lim in {0, < s, = s, > s}; the large entry first / middle / last in the log; single- vs multi-partition consumers.
-pub fn gen_c17(rng: &mut Rng, d: &mut Dist, _idx: u64) -> Vec<String> {
+pub fn gen_c17(rng: &mut Rng, d: &mut Dist, idx: u64) -> Vec<String> {
     let multi = rng.chance(1, 2);
     bump(d, if multi { "multi-partition" } else { "single-partition" });
     let np = if multi { 2 + rng.below(2) as usize } else { 1 };
@@ -2702,13 +2775,13 @@ pub fn gen_c17(rng: &mut Rng, d: &mut Dist, _idx: u64) -> Vec<String> {
         _ => s * 4,
     };
     bump(d, &format!("limit-{}", if lim == 0 { "0" } else if lim < s { "below-size" } else if lim == s { "equals-size" } else { "above-size" }));
-    out.push(format!(
-        "OP consumer_create hosts={} topic={} fallback=earliest maxbytes={} retrylimit={}",
-        h("b1:9092"),
-        h("t"),
-        base,
-        lim
-    ));
+    // the two builder calls in either order: what counts is the pair of values the consumer ends up with
+    if idx % 2 == 0 {
+        out.push(format!("OP consumer_create hosts={} topic={} fallback=earliest maxbytes={} retrylimit={}", h("b1:9092"), h("t"), base, lim));
+    } else {
+        bump(d, "retry-limit-set-before-fetch-size");
+        out.push(format!("OP consumer_create hosts={} topic={} fallback=earliest retrylimit={} maxbytes={}", h("b1:9092"), h("t"), lim, base));
+    }
     // half of the histories are disturbed: a poll (also the one that fetches a partition alone) fails with a partition error
     // or a lost connection, or the application seeks (past the large entry, or back to it) in between
     let disturbed = rng.chance(1, 2);
